@@ -9,7 +9,8 @@ PROFILES = {
                 release_all_p=0.6, no_learning=True),
     "C02": dict(axes=False, max_events=60, action_p=0.4, nmaps=[2, 3, 3], disconnect_p=0.2),
     "C03": dict(axes=False, max_events=60, max_keys=6, action_p=0.25, disconnect_p=0.2),
-    "C04": dict(axes=False, max_events=70, action_p=0.5, nactions=[2, 4, 6], extra_oct=[10, -10, 11, -11], disconnect_p=0.1),
+    "C04": dict(axes=False, max_events=70, action_p=0.5, nactions=[2, 4, 6], extra_oct=[10, -10, 11, -11, 126, 127, -127, -128, 128, 200, -300], extra_semi=[127, -128, 126, 130, -200],
+                disconnect_p=0.1),
     "C05": dict(axes=True, max_events=50, unaccepted_p=0.0, abs_p=0.35,
                 want_actions=["panic"], nactions=[1, 2, 4]),
     "C06": dict(axes=True, akinds=["cc", "cc", "pitch_bend"], naxes=[1, 2, 3], abs_p=0.85, max_events=50, nactions=[0, 0, 1, 2],
